@@ -290,6 +290,15 @@ def run_config(ctx, cfg):
         tot = tot + marg[r]
     Zfull = state.normalization(space)
     ctx.eq("lemma/normalization == sum of probabilities", Zfull._arr[()], tot)
+    # order of calls: what probability / psi return with their arguments left at the defaults does not depend on whether
+    # the normalisation has been computed on this object before
+    state.compute_normalization(space)
+    p_after = state.probability(space)
+    psi_after = state.psi(space)
+    for r in range(D):
+        ctx.eq("history/probability(v) with the default Z after normalization() was called == hidden marginal[row=%d]" % r, p_after._arr[r], marg[r])
+        ctx.eq("history/psi(v) after normalization() was called: |psi|^2 == hidden marginal[row=%d]" % r,
+               psi_after._arr[0, r] * psi_after._arr[0, r] + psi_after._arr[1, r] * psi_after._arr[1, r], marg[r])
     ctx.frame("lemma/frame")
 
 
